@@ -803,7 +803,11 @@ class MyPyAstVisitor:
         type_: sds_types.AbstractType | None = None
         node = None
         if hasattr(attribute, "node"):
-            if not isinstance(attribute.node, mp_nodes.Var):
+            if attribute.node is None and isinstance(attribute, mp_nodes.MemberExpr):
+                # Mypy binds a variable only to the first definition of a member. A constructor attribute that is also
+                # assigned in a method defined before the constructor has no node here, but it still is an attribute.
+                pass
+            elif not isinstance(attribute.node, mp_nodes.Var):
                 # In this case we have a TypeVar attribute
                 attr_name = getattr(attribute, "name", "")
 
